@@ -34,7 +34,7 @@ def run(ck):
     ck.rule("C11.R7", "directive levels are compared by a correct total order (as C19.R1/R2/R4)", floor=60)
     ck.rule("C11.R8", "EnvFilter and Targets implement the same hooks as a layer and as a per-subscriber filter (as C09.R9)", floor=9)
     ck.rule("C11.R11", "the builder's default directive is added only to a filter that parsed no directive of either kind", floor=1)
-    ck.rule("C11.R10", "span-scoped directives can raise the level for a callsite the static directives turn off: EnvFilter never caches `never` while it has span directives (as C08.R11)", floor=2)
+    ck.rule("C11.R10", "span-scoped directives can raise the level for a callsite the static directives turn off: EnvFilter never caches `never` while it has span directives (as C08.R11)", floor=3)
     ck.rule("C11.R9", "EnvFilter Builder steps keep every other option (same-named field carry-over, as C13.R6)", floor=3)
     ck.rule("C11.R1", "directive vector mutated only by DirectiveSet::add at the binary_search position; max_level kept an upper bound", floor=5)
     ck.rule("C11.R2", "first match in storage order decides; no match disables; siblings agree", floor=4)
@@ -306,9 +306,21 @@ def r5(ck, F):
             ck.bad("C11.R5", "enter and exit use the same predicate (balanced scope stack)", EF, "enter: %s exit: %s" % (tabs["on_enter"], tabs["on_exit"]))
     oc = F.body(EF + "::on_close")
     if ck.anchor("C11.R5", "EnvFilter::on_close", oc):
-        rem = [t for bb, t in oc.calls() if t["callee"].get("method") == "remove"]
+        rem = [(bb, t) for bb, t in oc.calls() if t["callee"].get("method") == "remove"]
+        # a stored matcher is removed whenever there is one: the only thing that may skip the removal is "nothing stored"
+        # (the cares_about_span fast path), with that polarity, or a poisoned lock
+        wrongp = False
         if rem:
+            g, _ = guards_of(oc, rem[0][0])
+            for t, v in g:
+                if t.startswith("cares_about_span(") and (v == 0 or v is False):
+                    wrongp = True
+                if "contains_key(" in t and (v == 0 or v is False):
+                    wrongp = True
+        if rem and not wrongp:
             ck.ok("C11.R5", "on_close removes the span's matcher", fn=oc.path)
+        elif wrongp:
+            ck.bad("C11.R5", "on_close removes the span's matcher", where(oc.raw["sp"]), "the removal runs only for spans *without* a stored matcher: every closed span leaves its matcher behind", fn=oc.path)
         else:
             ck.bad("C11.R5", "on_close removes the span's matcher", where(oc.raw["sp"]), "no remove call", fn=oc.path)
     ns = F.body(EF + "::on_new_span")
@@ -317,7 +329,7 @@ def r5(ck, F):
         ok = len(ins) == 1
         if ok:
             g, _ = guards_of(ns, ins[0])
-            ok = any(("by_cs" in t or "get(" in t) and v != 0 for t, v in g)
+            ok = any(("by_cs" in t or "get(" in t) and v != 0 for t, v in g) and not any(("by_cs" in t and "get(" in t) and (v == 0 or v is False) for t, v in g)
         if ok:
             ck.ok("C11.R5", "on_new_span stores a matcher iff the callsite has span-scoped directives", fn=ns.path)
         else:
